@@ -860,14 +860,27 @@ func (a *c13SAbs) apply(o [4]int64) {
 func (a *c13SAbs) allOps() [][4]int64 {
 	n := len(a.seq)
 	ops := [][4]int64{{5, 0, 0, 0}, {6, 0, 41, 0}, {7, 0, 42, 0}, {17, 0, 43, 0}}
+	// indices in -1..n+1, and indices far outside the range whose LOW 32 (or 16, 8) bits look like a valid index: an index
+	// narrowed to a smaller integer type somewhere would accept them
+	idxs := []int64{}
 	for i := -1; i <= n+1; i++ {
-		I := int64(i)
+		idxs = append(idxs, int64(i))
+	}
+	for _, j := range []int64{0, 1, int64(n) - 1} {
+		if j >= 0 {
+			idxs = append(idxs, 1<<32+j, -(1<<32)+j, 1<<60+j, -(1<<60)+j, 1<<16+j, 1<<8+j, 1<<31+j, -(1<<31)+j)
+		}
+	}
+	for _, I := range idxs {
 		ops = append(ops, [4]int64{3, 0, I, 0}, [4]int64{4, 0, I, 0}, [4]int64{8, 0, I, 44})
 		for _, e := range a.detached() {
 			ops = append(ops, [4]int64{11, 0, I, int64(e)})
 		}
 		for j := -1; j <= n; j++ {
 			ops = append(ops, [4]int64{12, 0, I, int64(j)})
+		}
+		if I >= 0 && I < int64(n) {
+			ops = append(ops, [4]int64{12, 0, I, 1 << 32}, [4]int64{12, 0, I, -(1 << 32)}, [4]int64{12, 0, 1<<32 + 1, I})
 		}
 	}
 	for _, e := range a.detached() {
@@ -1203,5 +1216,5 @@ func c13Describe(in []int64) string {
 func init() {
 	Register(&Prop{ID: "C13", Num: 13, SpecMode: "equal", Gen: c13Gen, Impl: c13Impl,
 		Shrink: c13Shrink, Describe: c13Describe,
-		Rule: "DList (implementation vs container/list vs model vs sequence specification): every defined operation with every handle choice (live, foreign, removed, never inserted; self-copies) on every state with list 0 <= 4 and list 1 <= 2 nodes, pairs of operations on the smaller states, all pairs on untouched zero-value / initialised lists, random sequences of 10-70 operations; each case ends with a full observation (Len, Front, Back, both traversals, All with early stops, Next/Prev/Value of every handle). SList: sizes 0..4 x every operation x every index in -1..n+1 (Swap all pairs) x every detached node, sequences up to the tier's depth; random sequences. distinct = distinct case; non-trivial = exhaustive cases with at least one mutating operation after the setup, random cases with at least 4 operation kinds"})
+		Rule: "DList (implementation vs container/list vs model vs sequence specification): every defined operation with every handle choice (live, foreign, removed, never inserted; self-copies) on every state with list 0 <= 4 and list 1 <= 2 nodes, pairs of operations on the smaller states, all pairs on untouched zero-value / initialised lists, random sequences of 10-70 operations; each case ends with a full observation (Len, Front, Back, both traversals, All with early stops, Next/Prev/Value of every handle). SList: sizes 0..4 x every operation x every index in -1..n+1 and indices +-2^8, 2^16, 2^31, 2^32, 2^60 (+j) far outside the range (Swap all pairs) x every detached node, sequences up to the tier's depth; random sequences. distinct = distinct case; non-trivial = exhaustive cases with at least one mutating operation after the setup, random cases with at least 4 operation kinds"})
 }
